@@ -53,8 +53,20 @@ def run(rep, tier, seed):
         if rng.random() < 0.15:
             from harness.props.c14 import duplicate_operand
             t = duplicate_operand(rng, t)              # e.g. {"xor": [c, c]} against c ^ c
+        has_paths = False
+        if rng.random() < 0.12:
+            # arguments that are data paths (whole argument, items of a list / tuple, values of a mapping / keyword
+            # arguments; zero to several parts; with modifiers): {"path...": [...]} in the spec, DataPath(...) in the DSL
+            from harness.props import c17, ruledrv
+            doc = gen.document(rng, depth=2, strish=0.8)
+            t2 = c17.cross_cond(rng, doc)
+            if c17.spec_expressible({"rparts": [], "cond": t2}):
+                t, has_paths = t2, True
         use_ops = rng.random() < 0.5                   # the DSL expression: python operators or the classes
-        out, dsl = outcome_of(lambda: gen.build_tree(t, operators=use_ops))
+        if has_paths:
+            out, dsl = outcome_of(lambda: ruledrv.build_cond(t))
+        else:
+            out, dsl = outcome_of(lambda: gen.build_tree(t, operators=use_ops))
         if dsl is None:
             continue
         try:
@@ -68,7 +80,7 @@ def run(rep, tier, seed):
             continue
         if e["outcome"] == "ok":
             parsed = gd.do_parse("parse_cond", gd.from_lit(lit))
-            if not same_behaviour(parsed, dsl):
+            if not has_paths and not same_behaviour(parsed, dsl):
                 e["eq_dsl"] = False
         events.append(e)
         recipes[e["id"]] = {"op": "parse_cond", "spec": lit, "src": "random"}
